@@ -23,7 +23,9 @@ Distinct(n, seed) == [i \in 1..n |-> (seed + i * 7) % 256]
 
 TlvTails ==
     IF Level = 1 THEN { << >>, << 4, 0, 1, 42 >>, << 9, 0 >> }
-    ELSE { << >>, << 4, 0, 1, 42 >>, << 1, 0, 0, 32, 0, 2, 5, 6 >>, << 9, 0 >>, << 9, 0, 5, 1 >>, << 238, 0, 0 >> }
+    ELSE { << >>, << 4, 0, 1, 42 >>, << 1, 0, 0, 32, 0, 2, 5, 6 >>, << 9, 0 >>, << 9, 0, 5, 1 >>, << 238, 0, 0 >>,
+           (* a PP2_TYPE_SSL value as HAProxy nests it: client flags (even), verify, a version sub-TLV *)
+           << 32, 0, 12, 0, 0, 0, 0, 0, 33, 0, 4, 84, 76, 83, 49 >> }
 
 Commands   == {0, 1}
 Families   == {0, 1, 2, 3}
@@ -42,6 +44,7 @@ SpecialBlocks ==
       [fam |-> 2, body |-> Distinct(16, 9) \o Distinct(16, 9) \o << 1, 2, 1, 2 >>],
       [fam |-> 1, body |-> << 10, 0, 0, 1, 10, 0, 0, 1, 0, 80, 0, 80 >>],
       [fam |-> 1, body |-> [i \in 1..12 |-> 0]],
+      [fam |-> 1, body |-> V2!Signature],        \* an address block that spells the protocol's own signature
       [fam |-> 2, body |-> [i \in 1..36 |-> 0]],
       [fam |-> 2, body |-> << 254, 128, 0, 4 >> \o Distinct(12, 3) \o << 255, 2 >> \o Distinct(14, 5) \o << 0, 1, 0, 2 >>] }
 
